@@ -544,3 +544,59 @@ Lemma reject_is_invalid_4xx q o cfg r now jnow :
 Proof.
   split; [apply handle_never_miss|]. split; [apply handle_panic|]. intros st b. apply handle_reject_shape.
 Qed.
+
+(** * the SignedHeaders list of a header-mode request is newline free (it is part of a header value) *)
+Lemma mget_nonl k m : (forall k, Forall nonl (mget_all k m)) -> nonl (mget k m).
+Proof.
+  intro H. unfold mget. specialize (H k). destruct (mget_all k m); [reflexivity|]. inversion H; assumption.
+Qed.
+
+Lemma header_mode_signed_nonl o l r p :
+  req_wf r -> init_from_header o l r = Some p -> nonl (p_signed p).
+Proof.
+  intros W. unfold init_from_header.
+  pose proof (mget_nonl "Authorization" _ (rw_headers r W)) as HA.
+  destruct (index_byte " "%char _) as [idx|]; [|discriminate].
+  destruct (negb (String.eqb _ _)); [discriminate|].
+  pose proof (split_on_keeps_nochar "010"%char ","%char _ (nochar_sdrop _ (S idx) _ HA)) as F.
+  destruct (split_on ","%char _) as [|a [|b [|c [|? ?]]]]; try discriminate.
+  inversion F as [|? ? _ F1]; subst. inversion F1 as [|? ? Hb _]; subst.
+  destruct (negb (String.prefix "Credential=" _)); [discriminate|].
+  destruct (Nat.ltb _ _); [discriminate|].
+  destruct (negb (String.prefix "SignedHeaders=" _)); [discriminate|].
+  destruct (negb (String.prefix "Signature=" _)); [discriminate|].
+  destruct (negb (String.prefix _ _)); [discriminate|].
+  destruct (o_ptime o _); [|discriminate].
+  intro E; injection E as <-.
+  change (nochar "010"%char (sdrop 14 (trim_space b))).
+  apply nochar_sdrop. unfold trim_space. apply nochar_strip_both. assumption.
+Qed.
+
+Lemma signed_nonl o l r p :
+  req_wf r -> init_from_request o l r = Some p -> (p_presign p = true -> nonl (p_signed p)) -> nonl (p_signed p).
+Proof.
+  intros W I H. unfold init_from_request in I.
+  destruct (negb (String.eqb _ _)).
+  - eapply header_mode_signed_nonl; eassumption.
+  - apply H. unfold init_from_query in I.
+    destruct (negb (String.eqb _ _)); [discriminate|].
+    destruct (Nat.ltb _ _); [discriminate|].
+    destruct (negb (String.prefix _ _)); [discriminate|].
+    destruct (o_ptime o _); [|discriminate]. destruct (o_puint o _); [|discriminate].
+    injection I as <-; reflexivity.
+Qed.
+
+(** [sig_same_tag_same_covered] with the side condition only where it is not automatic (presigned URLs) *)
+Theorem sig_mutation_rejected o c r1 r2 now1 now2 p1 p2 :
+  oracle_ideal o -> s_keys c <> [] -> req_wf r1 -> req_wf r2 ->
+  init_from_request o (s_lit c) r1 = Some p1 -> init_from_request o (s_lit c) r2 = Some p2 ->
+  (p_presign p1 = true -> nonl (p_signed p1)) -> (p_presign p2 = true -> nonl (p_signed p2)) ->
+  sig_ok ideal o c r1 now1 = true -> sig_ok ideal o c r2 now2 = true ->
+  p_tag p1 = p_tag p2 ->
+  covered_of ideal o c p1 r1 = covered_of ideal o c p2 r2.
+Proof.
+  intros O NE W1 W2 I1 I2 S1 S2 A1 A2 T.
+  apply (sig_same_tag_same_covered o c r1 r2 now1 now2 p1 p2); try assumption.
+  - exact (signed_nonl o (s_lit c) r1 p1 W1 I1 S1).
+  - exact (signed_nonl o (s_lit c) r2 p2 W2 I2 S2).
+Qed.
